@@ -519,9 +519,9 @@ macro_rules! impl_narrow {
             type Output = $to;
 
             fn narrow_saturate(self, lo: $from, hi: $from) -> $to {
-                let mid = lo.0.len() / 2;
+                let mid = lo.0.len();
                 let xs = array::from_fn(|i| {
-                    let x = if i < mid { lo.0[i] } else { hi.0[i] };
+                    let x = if i < mid { lo.0[i] } else { hi.0[i - mid] };
                     x.narrow_saturate()
                 });
                 $to(xs)
@@ -660,3 +660,29 @@ impl_simd!(I8x16, i8, M8, 16);
 impl_simd!(U8x16, u8, M8, 16);
 impl_simd!(U16x8, u16, M16, 8);
 impl_simd!(U32x4, u32, M32, 4);
+
+#[cfg(test)]
+mod tests {
+    use super::GenericIsa;
+    use crate::ops::{BitOps, NarrowSaturate};
+    use crate::{Isa, Simd};
+
+    // Tests in `crate::ops` use the preferred ISA for the system, which is
+    // usually not the generic one.
+    #[test]
+    fn test_narrow_saturate() {
+        let isa = GenericIsa::new();
+
+        let ops = isa.i32();
+        let src = [i32::MIN, -32769, -1, 0, 1, 32767, 32768, i32::MAX];
+        let expected = [i16::MIN, i16::MIN, -1, 0, 1, i16::MAX, i16::MAX, i16::MAX];
+        let y = ops.narrow_saturate(ops.load(&src[..4]), ops.load(&src[4..]));
+        assert_eq!(y.to_array(), expected);
+
+        let ops = isa.i16();
+        let src: Vec<i16> = (0..16).map(|i| i * 20 - 30).collect();
+        let expected: Vec<u8> = src.iter().map(|&x| x.clamp(0, 255) as u8).collect();
+        let y = ops.narrow_saturate(ops.load(&src[..8]), ops.load(&src[8..]));
+        assert_eq!(y.to_array().as_ref(), expected);
+    }
+}
